@@ -248,17 +248,19 @@ class BSplines():
                 self._integrals[:] = dx
                 self._integrals[n:] = 0
             else:
-                self._integrals[d:-d] = dx
+                self._integrals[:] = dx
                 values = np.empty(d+2)
                 knots = np.linspace(xmin, xmin+dx*11, 12)
                 test_pt = xmin + 4*dx
                 span = nu_find_span(knots, 4, test_pt)
                 nu_basis_funs(knots, 4, test_pt, span, values)
 
+                # Remove the part of the splines which lies outside the domain
+                # (with less than 3 cells a spline is cut at both ends)
                 for i in range(3):
-                    step = dx*(1 - sum(values[:3-i]))
-                    self._integrals[i] = step
-                    self._integrals[-i-1] = step
+                    step = dx*sum(values[:3-i])
+                    self._integrals[i] -= step
+                    self._integrals[-i-1] -= step
         else:
             knots = np.array([self.knots[0], *self.knots, self.knots[-1]])
             values = np.empty(d+2)
